@@ -222,3 +222,45 @@ def path_is_error_propagation(path):
 
 def sh(v, body=None):
     return show(v, body)
+
+
+def describe(path, v, body=None, depth=0):
+    """Like show(), but results of opaque calls are expanded to `callee(args..)` (short callee name)."""
+    calls = getattr(path, '_calls', None)
+    if calls is None:
+        calls = path._calls = {e['id']: e for e in path.events if e['kind'] == 'call'}
+    if depth > 8:
+        return '…'
+
+    def d(x):
+        return describe(path, x, body, depth + 1)
+    k = v[0]
+    if k == 'call' and v[1] in calls:
+        c = calls[v[1]]
+        nm = (c['res'] or c['decl'])
+        short = nm.split('::')[-1]
+        return '%s(%s)' % (short, ', '.join(d(a) for a in c['args']))
+    if k == 'binop':
+        return '%s(%s, %s)' % (v[1], d(v[2]), d(v[3]))
+    if k == 'unop':
+        return '%s(%s)' % (v[1], d(v[2]))
+    if k == 'cast':
+        return d(v[2])
+    if k == 'ref':
+        return d(v[1])
+    if k == 'load':
+        return d(v[1])
+    if k == 'deref':
+        return d(v[1])
+    if k == 'field':
+        base = d(v[1])
+        return '%s.%s' % (base, v[2])
+    if k == 'fieldv':
+        return '%s.%s' % (d(v[1]), v[2])
+    if k == 'discr':
+        return 'discr(%s)' % d(v[1])
+    if k == 'havoc':
+        return d(v[1])
+    if k == 'agg':
+        return '%s{%s}' % (v[3] or v[2].split('::')[-1] or 'tuple', ', '.join(d(x) for x in v[5]))
+    return show(v, body)
